@@ -22,8 +22,10 @@ theorem C20_suppressed_by_shape :
 `not in sending`, and contains nothing else — the shape `replyAdditionals` models and `C20_reply_no_duplicates` is about -/
 theorem C20_reply_shape :
     src_reply_sending = "set(answers)" ∧ src_reply_additionals = "answers[answer]" ∧ src_reply_iter = "additionals"
-    ∧ src_reply_test = "additional not in sending"
+    ∧ src_reply_test = "additional not in sending" ∧ src_reply_sending_add = "additional"
+    ∧ src_reply_add_additional = "additional" ∧ src_reply_add_answer = "answer"
     ∧ src_reply_census = "AnnAssign:1 Assign:1 Expr:3 For:2 If:1 | sending additionals" :=
-  ⟨pin_reply_sending, pin_reply_additionals, pin_reply_iter, pin_reply_test, pin_reply_census⟩
+  ⟨pin_reply_sending, pin_reply_additionals, pin_reply_iter, pin_reply_test, pin_reply_sending_add, pin_reply_add_additional,
+    pin_reply_add_answer, pin_reply_census⟩
 
 end Zc
